@@ -25,16 +25,16 @@ PROPS = {
     "C15": {"units": ["glue", "build"]},
     "C16": {"units": ["gz"], "kani": ["K4"]},
     "C17": {"units": ["build", "gz", "chunker"]},
-    "C19": {"units": ["path"], "native_always": ["path"], "native_bound": "FsDir::get on every path of <= 4 segments over {a, sub, .., ., ..., ..a, a.., empty, secret} with optional leading/trailing slash, plus NUL injections (26 343 paths) against a directory tree with a secret outside the base"},
+    "C19": {"units": ["path"], "native_always": ["path"], "native_bound": "FsDir::get on every path of <= 4 segments over {a, sub, .., ., ..., ..a, a.., empty, secret} with optional leading/trailing slash, plus NUL injections (26 343 paths) against a directory tree with a secret outside the base; .gz-sibling clause: 10 paths (plain file, file + .gz file, file + .gz directory, only .gz, nothing + .gz directory, nested, directory + .gz file, ...) x 9 Accept-Encoding values x auto_gzip on/off, checking the file opened, encoding(), encoding_varies() and add_encoding_headers"},
+    "C18": {"units": ["file"], "native_always": ["file"], "native_bound": "ChunkedReadFile on real temporary files: sizes {0, 1, 65535, 65536, 65537, 131072, 200001} x ranges with both ends on / next to the 64 KiB read-size boundaries and the file end (254 ranges) x truncation to 8 lengths after 0, 1 or 2 items (240) x ETag stability / sensitivity for 9 modification times (3 before the epoch) x {same, append, touch ns, touch s, replace} x a directory as non-regular file"},
     "C20": {"units": ["streams", "chunker"]},
 }
 
 # properties for which lib/witness.py has native oracles (used to arbitrate failures of shared invariant clauses)
-NATIVE_ORACLES = {"C01", "C02", "C03", "C04", "C05", "C06", "C07", "C08", "C10", "C11", "C12", "C13", "C14", "C15", "C19", "C20"}
+NATIVE_ORACLES = {"C01", "C02", "C03", "C04", "C05", "C06", "C07", "C08", "C10", "C11", "C12", "C13", "C14", "C15", "C16", "C17", "C18", "C19", "C20"}
 
 NOT_APPLICABLE = [
     {"property_id": "C09", "reason": "about the bytes flate2/miniz_oxide emit (valid gzip member, decodability after flush): no contract within reach can express or decide DEFLATE validity; the in-reach parts (bytes reach the encoder in order, coding headers) are covered under C08/C17"},
-    {"property_id": "C18", "reason": "decided by pread/fstat semantics, unsafe FFI in platform.rs and an async closure inside futures unfold + tokio block_in_place: Verus supports neither async nor FFI, Kani has no model of those syscalls"},
 ]
 NOTES = "One driver: ./check <ID> --tier quick|thorough. Exit 2 (inconclusive: lost anchor, tool error, rlimit) never occurs on the unchanged tree."
 
@@ -70,8 +70,10 @@ META = {
          "assumed: meaning of core::str primitives (opaque Str)", ["Kani K4: parse_qvalue on ASCII strings of length <= 6 (bounded; grammatical qvalues have <= 5 bytes)"], []),
  "C17": ("proof", "streaming_body/with_*/build are proved: Vary always, Content-Encoding: gzip iff should_gzip && level > 0 iff the writer is the Gzipped variant with that level, for both AsRequest impls; chunk_size > 0 is a stated precondition (the real code panics otherwise).",
          "assumed: flate2 produces gzip data from a Gzipped writer (C09 is not claimed)", [], ["the bytes flate2 emits"]),
+ "C18": ("proof", "Validator half proved, stream half bounded. Verus proves on the real bodies: new_with_metadata refuses whatever is not a regular file and captures exactly the length, inode and modification time the OS reported at construction; len() / last_modified() return those; etag() never panics (whatever the modification time, also before the epoch) and renders the strong-tag literal over (inode, len, sign, seconds, nanoseconds), and a lemma shows that argument tuple to be injective in (inode, len, mtime) - identical for an unmodified file, different once length, mtime or identity changes. get_range (an async closure around pread inside futures unfold + tokio block_in_place) is outside the verifier's reach: a bounded native check on real files stands in (labelled bounded, never counted as proved).",
+         "assumed: core::fmt renders `{:x}` as plain lower-case hex and distinct argument tuples of the `:`-separated literal differently; platform::file_info (fstat FFI) reports the file's length / inode / mtime; Metadata::is_file; Arc is transparent", ["native bounded stand-in for get_range: see native_bound"], ["get_range beyond the bounded family; platform.rs (unsafe FFI)"]),
  "C19": ("proof", "validate_path is proved, for byte strings of any length, to refuse exactly the paths that are absolute, contain NUL or have a `..` segment; Node::encoding / encoding_varies / add_encoding_headers are proved to report gzip exactly when the .gz sibling was substituted and Vary exactly when auto_gzip is on. FsDir::get itself (async, spawn_blocking, openat) is outside the verifier's reach: a bounded native check of it stands in (labelled bounded, not counted as proved).",
-         "assumed: memchr returns the first index; the file-opening clauses (openat, .gz lookup, directories) are OS behaviour and not covered", ["native bounded stand-in for FsDir::get when validate_path cannot be analysed: paths of <= 4 segments"], ["which file openat opens; .gz substitution; encoding headers"]),
+         "assumed: memchr returns the first index; the file-opening clauses (openat, .gz lookup, directories) are OS behaviour and not covered", ["native bounded stand-in for FsDir::get when validate_path cannot be analysed: paths of <= 4 segments"], ["FsDir::get beyond the bounded families (symlinks, other trees)"]),
  "C20": ("proof", "terminal states are proved absorbing: ExactLenStream with remaining == 0 and a finished inner stream keeps returning None; MultipartStream is terminal (cur = None, state = end, remaining = 0) after any error or end and returns None from then on without indexing; Reader fuses after end/error; Once bodies take() their value.",
          "assumed: the entity's streams stay finished once finished or failed (as the property states)", [], []),
 }
